@@ -36,7 +36,8 @@ Inductive export :=
 | XElement (attr name sym : string) (z : Z) (w wdec : Q)
 | XIsotope (attr name sym elem_attr : string) (z a : Z) (w wdec : Q).
 
-Definition weight_matches_text (w wdec : Q) : bool := close (pow2 (-50)) 0 w wdec.
+(* (1 + 2^-53)^5 - 1 < 2^-51: at most 3 correctly rounded literals and 2 rounded operations per expression *)
+Definition weight_matches_text (w wdec : Q) : bool := close (pow2 (-51)) 0 w wdec.
 
 Definition check_export (en : env) (x : export) : bool :=
   match x with
@@ -203,6 +204,7 @@ Inductive built :=
 | BElement (name sym : string) (z : Z) (w : Q)
 | BIsotope (name sym : string) (z : Z) (w : Q) (a : Z) (elem : sref)
 | BLine (elem : sref) (charge : Z) (tr : list tval)
+| BNested (name sym : string) (z : Z) (w : Q) (a : Z) (parent : sref)     (* an Isotope whose .element is an Isotope *)
 | BRaise (e : exc).
 Definition exc_eqb (a b : exc) : bool :=
   match a, b with ExcValue, ExcValue | ExcType, ExcType | ExcOverflow, ExcOverflow | ExcAttribute, ExcAttribute => true | _, _ => false end.
@@ -225,6 +227,15 @@ Definition check_init (en : env) (cls : Z) (args : list parg) (got : built) : bo
              | Raise x, BRaise y => exc_eqb x y
              | Outside, _ => true
              | _, _ => false end
+      | 3 => match isotope_on_isotope_init_py vs, got with
+             | Done ni, BNested n s z w a pr =>
+                 match resolve en pr with
+                 | Some (SI j) => (String.eqb (ni_name ni) n && String.eqb (ni_symbol ni) s && Z.eqb (ni_Z ni) z
+                                   && Qeqb_struct (ni_weight ni) w && Z.eqb (ni_A ni) a && isotope_seqb (ni_parent ni) j)%bool
+                 | _ => false end
+             | Raise x, BRaise y => exc_eqb x y
+             | Outside, _ => true
+             | _, _ => false end
       | _ => match line_init_py vs, got with
              | Done l, BLine er c tr =>
                  match resolve en er with
@@ -242,6 +253,7 @@ Definition init_outside (en : env) (cls : Z) (args : list parg) : bool :=
   | Some vs => match cls with
                | 0 => match element_init_py vs with Outside => true | _ => false end
                | 1 => match isotope_init_py vs with Outside => true | _ => false end
+               | 3 => match isotope_on_isotope_init_py vs with Outside => true | _ => false end
                | _ => match line_init_py vs with Outside => true | _ => false end
                end
   end.
